@@ -24,7 +24,7 @@ CHECKS = {
  "C16": ("model_checking", "E1 over LeaseSet2 values x key pairs x cookies under a deterministic rand.Reader; exhaustive tampering of every ciphertext byte; exhaustive product for blinding (types x secrets x instants x zones x factors) against an independent edwards25519 computation",
          "Every byte position of the selected ciphertexts is modified (8 bit flips; thorough: all 255 values) and must be rejected with a nil value; every (destination type, secret, instant, zone) tuple is blinded and compared with A + alpha*B computed independently.",
          "Also plaintext lengths up to the largest LeaseSet2 that fits (65,475 bytes), unusual instants and unusual Ed25519 point encodings. alpha derivation (HKDF) is trusted from go-i2p/crypto; AEAD/X25519 primitives trusted."),
- "C17": ("exploration", "exhaustive product of host x port x key-variant x caps menus through constructor and parser paths, against independent three-valued IP/port recognisers; per entry a call history (result kept / caller overwrites its result / fresh lookup)",
+ "C17": ("exploration", "exhaustive product of host x port x key-variant x caps menus through constructor and parser paths, against independent three-valued IP/port recognisers; per entry a call history (result kept / caller overwrites its result / fresh lookup); plus bounded-exhaustive string spaces: every decimal port 0..70000 in four spellings, every string up to length 4 (thorough 7 / 6) over an 8-symbol port alphabet and a 12-symbol host alphabet, every dotted quad over a 13-value octet menu",
          "Full product of a 50-host and 34-port menu plus key variants and caps; every static-key/IV length 0..40.",
          "Strings outside the menus are not enumerated; Unspecified forms only bound by the consistency clauses."),
  "C18": ("model_checking", "stateless preemption-bounded exhaustive exploration of thread interleavings of the REAL code under a hand-written cooperative scheduler (statement-level yield points inserted into every library file by an AST instrumenter applied as a go build -overlay), with deep snapshots of receiver graph + all package-level variables; plus a per-statement mutation analysis and a separate free-running -race pass",
